@@ -4,6 +4,7 @@ import (
 	"go/ast"
 	"go/token"
 	"strconv"
+	"strings"
 )
 
 // C20: both date-format lists and the `terms` table, plus the structural facts of parseLqlDateTime the model is
@@ -291,6 +292,35 @@ func init() {
 		l.p("def lpResetsCountOnDetect : Bool := %s", leanBool(resetDetect))
 		l.p("def lpSetsLastDateOnFastPath : Bool := %s", leanBool(lastFast))
 		l.p("def lpSetsLastDateOnDetect : Bool := %s", leanBool(lastDetect))
+		l.p("")
+		// NewParser: the pattern the per-format expression is wrapped in
+		guard := false
+		if fd := funcDecl(df, "", "NewParser"); fd == nil {
+			problem("date.NewParser not found")
+		} else {
+			pat := ""
+			ast.Inspect(fd.Body, func(n ast.Node) bool {
+				if ce, ok := n.(*ast.CallExpr); ok {
+					if se, ok := ce.Fun.(*ast.SelectorExpr); ok && se.Sel.Name == "Sprintf" && len(ce.Args) == 3 {
+						if sv, ok := strLit(ce.Args[0]); ok && strings.Contains(sv, "(?P<") {
+							pat = sv
+						}
+					}
+				}
+				return true
+			})
+			switch pat {
+			case "(?P<%v>%v)":
+				guard = false
+			case "(?:^|[^0-9])(?P<%v>%v)":
+				guard = true
+			default:
+				problem("date.NewParser: the pattern around the format's expression is not one of the modelled forms: %q", pat)
+			}
+		}
+		l.p("/-- `NewParser` wraps the format's expression as `(?:^|[^0-9])(?P<date>…)`: a date starts at the beginning of the text or right")
+		l.p("after a byte that is not a digit (false: `(?P<date>…)`, a date may start anywhere) -/")
+		l.p("def regexpLeftGuard : Bool := %s", leanBool(guard))
 		l.p("")
 		l.p("/-- `terms` of date.go in table order: (format term, Go layout, regular expression), as bytes -/")
 		l.p("def terms : List (List UInt8 × List UInt8 × List UInt8) := [")
